@@ -63,7 +63,7 @@ META = dict(
          "span sets (fail span enclosing, inside and overlapping the valid span); every other member spelt with reversed spans) [thorough: + every list of length 3 over a 12 "
          "member sub-menu]; inputs: product series of 28 calendar-edge instants x 17 values x 7 depths in 3 orders, "
          "the same with all depths missing and with zinp=None, + every sequence of length<=2 over an 18-triple "
-         "alphabet; each state = one call of the real climatology_test judged per point by the scalar reference "
+         "alphabet; the same configuration object (list of dicts / ClimatologyConfig) used for a second call; each state = one call of the real climatology_test judged per point by the scalar reference "
          "(datetime.isocalendar etc.). non-trivial = reference demands a flag other than UNKNOWN somewhere",
     bounds={"quick": {"members_per_list": 2, "menu": 135, "instants": len(TIMES), "values": len(XV), "depths": len(ZV)},
             "thorough": {"members_per_list": "2 (menu 81) and 3 (sub-menu 12)", "instants": len(TIMES)}},
@@ -149,6 +149,9 @@ def check_case(case):
         out = cfg
     else:
         out = alpha.call(qartod.climatology_test, cfg, alpha.nd(x), tin, zin)
+        if case.get("twice") and not isinstance(out, alpha.Raised):
+            # the SAME configuration object is used again (a second observation run with one config)
+            out = alpha.call(qartod.climatology_test, cfg, alpha.nd(x), tin, zin)
     acceptable = R.climatology(ref_members(members), alpha.ref(x), [_dt(s) for s in tstr], zref)
     kinds = sorted({m.get("period") or "absolute" for m in members})
     anyz = any("zspan" in m for m in members)
@@ -196,6 +199,8 @@ def run_task(task, acc):
             for members in ([[]] if task[1] < 0 else [[MENU[task[1]]]]):
                 yield from prod_cases(members)
                 yield dict(members=members, order="stride", cfg="object")
+                yield dict(members=members, order="stride", cfg="object", twice=True)
+                yield dict(members=members, order="stride", twice=True)
                 for pts in alpha.all_seqs(SMALL, 0, 2):
                     yield dict(members=members, points=[list(p) for p in pts])
         run_cases(acc, gen(), check_case)
